@@ -72,6 +72,21 @@ pub broadcast proof fn lemma_swrote_wrote_b<O: BinaryOutput>(pre: &Serialization
     lemma_swrote_wrote(pre, post, b);
 }
 
+pub broadcast proof fn lemma_swrote_all_b<O: BinaryOutput>(a: &SerializationContext<O>, b: &SerializationContext<O>, x: Seq<u8>, t: Tbl)
+    requires
+        #[trigger] swrote(a, b, x, t),
+    ensures
+        b.owf(),
+        b.olen() == a.olen() + x.len(),
+        b.keeps() == a.keeps(),
+        a.keeps() ==> b.obytes() =~= a.obytes() + x,
+        b.orest().lower == a.orest().lower,
+        b.orest().strs == t,
+        b.orest().refs == a.orest().refs,
+{
+    lemma_swrote_all(a, b, x, t);
+}
+
 pub broadcast proof fn lemma_swrote_facts_b<O: BinaryOutput>(a: &SerializationContext<O>, b: &SerializationContext<O>, x: Seq<u8>, t: Tbl)
     requires
         #[trigger] swrote(a, b, x, t),
@@ -128,7 +143,9 @@ pub broadcast proof fn lemma_rf_any<T: BinaryDeserializer>(o: &AdtDeserializer, 
     ensures
         r is Ok ==> a.adwf() && a.metadata == o.metadata
             && a.last_index_per_chunk@.len() == o.last_index_per_chunk@.len()
-            && (forall|c: int| 0 <= c < o.last_index_per_chunk@.len() ==> #[trigger] a.last_index_per_chunk@[c] <= o.last_index_per_chunk@[c] + 1),
+            && (forall|c: int| 0 <= c < o.last_index_per_chunk@.len() ==> #[trigger] a.last_index_per_chunk@[c] <= o.last_index_per_chunk@[c] + 1)
+            // the stream is only ever moved forward, inside its current region
+            && a.dctx().frame_eq(o.dctx()) && a.dctx().current.pos >= o.dctx().current.pos,
 {
     reveal(rf_post);
 }
@@ -141,7 +158,9 @@ pub broadcast proof fn lemma_rof_any<T: BinaryDeserializer>(o: &AdtDeserializer,
     ensures
         r is Ok ==> a.adwf() && a.metadata == o.metadata
             && a.last_index_per_chunk@.len() == o.last_index_per_chunk@.len()
-            && (forall|c: int| 0 <= c < o.last_index_per_chunk@.len() ==> #[trigger] a.last_index_per_chunk@[c] <= o.last_index_per_chunk@[c] + 1),
+            && (forall|c: int| 0 <= c < o.last_index_per_chunk@.len() ==> #[trigger] a.last_index_per_chunk@[c] <= o.last_index_per_chunk@[c] + 1)
+            // the stream is only ever moved forward, inside its current region
+            && a.dctx().frame_eq(o.dctx()) && a.dctx().current.pos >= o.dctx().current.pos,
 {
     reveal(rof_post);
 }
